@@ -275,6 +275,7 @@ def psimod_self_consistent(e) -> bool:
 def run(ctx):
     st = State()
     pt = install(ctx, st)
+    ctx.enable_disturb(pt, 0.03)     # other legitimate library calls interleaved between cases (vf.gen.disturb)
     cfg = gp.GenCfg(min_len=1, max_len=14, letters=LETTERS, weights=dict(gp.W_COMP), labels=C03_LABELS,
                     p_isotope=0.25, p_mult=0.2, p_res=0.3, p_interval=0.2, p_unknown=0.2, p_labile=0.25,
                     p_static=0.3, p_static_term=0.4, p_charge=0.35, p_tag=0.1, p_alt=0.1)
